@@ -28,6 +28,17 @@ def gen_case(sd, idx, with_python):
             "grid": {"dims": (1, 1) if one_cell else (1, 4), "max_cells": 24 if not with_python else 8},
             "graph": {"nodes": (1, 1) if one_cell else (1, 7 if not with_python else 5), "simple": True}}
     desc = gen.rand_system(r, opts)
+    if idx % 50 == 21:
+        # diffusion coefficients of extreme but finite magnitude (1e-175 .. 1e-160 or 1e+160 .. 1e+175 in SI), alone: every
+        # quantity of the step (D, D/h^2, the harmonic interface mean, D dt) is representable although products such as Di*Dj are not
+        e_ = r.choice([-1, 1]) * r.uniform(160, 175)
+        for s_ in desc["species"]:
+            f_ = 10.0 ** e_
+            s_["D"] = {k_: v_ * f_ for k_, v_ in s_["D"].items()} if isinstance(s_["D"], dict) else s_["D"] * f_
+        desc["reactions"] = []
+        desc["extreme_D"] = True
+        if desc["state"] is None:
+            desc["state"] = [float(r.randint(0, 50)) for _ in range(len(desc["species"]) * gen.ncells(desc["space"]))]
     if not with_python and idx % 40 == 7:
         # a hub: one node with 255..320 neighbours (more than an 8-bit counter can count), unequal volumes and contacts
         h = desc["h"]
@@ -91,6 +102,8 @@ def run_case(case):
     # (a) one Euler step through the engine
     rates = [abs(x) for x in f_free]
     maxrate = max([m / (abs(s) + 1.0) for m, s in zip(mag, state)] + [1e-3])
+    if desc.get("extreme_D"):
+        maxrate = max([m / (abs(s) + 1.0) for m, s in zip(mag, state)] + [1e-300])      # no floor: the step follows the extreme scale
     dt = 0.02 / maxrate
     if r.random() < 0.2:
         # a step far beyond the stability limit: the explicit step is still x + dt * f(x), entries that overshoot below
